@@ -14,6 +14,15 @@ import (
 
 const verifRoot = "/verif"
 
+// outRoot is where evidence and replay files go: /verif, unless GOCV_OUT redirects them
+// (used when a check is run against a scratch worktree with --repo to try a seeded change).
+func outRoot() string {
+	if d := os.Getenv("GOCV_OUT"); d != "" {
+		return d
+	}
+	return verifRoot
+}
+
 // PropConfig is /verif/props/<id>.json: what a property's check verifies.
 type PropConfig struct {
 	ID          string   `json:"id"`
@@ -280,7 +289,7 @@ func cmdCheck(argv []string) int {
 	}
 
 	// replays and VIOLATION lines
-	rdir := filepath.Join(verifRoot, "replays", id)
+	rdir := filepath.Join(outRoot(), "replays", id)
 	var vlines []string
 	if len(viols) > 0 {
 		os.MkdirAll(rdir, 0o755)
@@ -361,9 +370,9 @@ func cmdCheck(argv []string) int {
 		"wall_s":      round3(time.Since(t0).Seconds()),
 		"violations":  len(viols),
 	}
-	os.MkdirAll(filepath.Join(verifRoot, "evidence"), 0o755)
+	os.MkdirAll(filepath.Join(outRoot(), "evidence"), 0o755)
 	eb, _ := json.MarshalIndent(ev, "", " ")
-	os.WriteFile(filepath.Join(verifRoot, "evidence", id+".json"), append(eb, '\n'), 0o644)
+	os.WriteFile(filepath.Join(outRoot(), "evidence", id+".json"), append(eb, '\n'), 0o644)
 
 	fmt.Printf("property %s tier %s: %d functions/lemmas, %d obligations, %d discharged, %.1fs\n", id, *tier, len(vcs), nObl, nDis, time.Since(t0).Seconds())
 	for _, l := range knownLines {
